@@ -31,6 +31,11 @@ type scenario struct {
 	Repeat     int        `json:"repeat"`
 	Pre        [][]string `json:"pre"`      // option sets Generate is called with, sequentially, before the measured calls (history)
 	PreFiles   []string   `json:"prefiles"` // other schemas read and generated before the measured calls (history across Files)
+	// an imported file is rewritten (path, new text) before the measured calls; with PreGenerate the root is generated
+	// once BEFORE the rewrite: the measured result must only depend on what is on disk when it is computed
+	MutatePath  string `json:"mutatepath"`
+	MutateText  string `json:"mutatetext"`
+	PreGenerate bool   `json:"pregenerate"`
 }
 
 func settings(sc *scenario) bebop.GenerateSettings { return settingsOf(sc, sc.Opts) }
@@ -95,6 +100,21 @@ func main() {
 	if err := json.NewDecoder(os.Stdin).Decode(sc); err != nil {
 		fmt.Fprintln(os.Stderr, "racer: bad scenario:", err)
 		os.Exit(3)
+	}
+	if sc.MutatePath != "" {
+		if sc.PreGenerate {
+			if ph, err := os.Open(sc.Root); err == nil {
+				if f0, _, err := bebop.ReadFile(ph); err == nil {
+					var sink bytes.Buffer
+					_ = f0.Generate(&sink, settings(sc))
+				}
+				ph.Close()
+			}
+		}
+		if err := os.WriteFile(sc.MutatePath, []byte(sc.MutateText), 0o644); err != nil {
+			fmt.Fprintln(os.Stderr, "racer:", err)
+			os.Exit(3)
+		}
 	}
 	text, err := os.ReadFile(sc.Root)
 	if err != nil {
